@@ -302,6 +302,58 @@ def check_map_history(rep, rng):
                     run(ta, wa, 'resolved', '6-registered-again')
 
 
+def check_nested_caller_map(rep):
+    """an open type whose resolved value holds an open type field of its own: the map the caller passes to decode() governs
+    the inner field as well (it is handed on to the second-pass decode of the outer field)"""
+    from pyasn1.type import univ, char, namedtype, opentype, tag as ptag
+    for container in (univ.Sequence, univ.Set):
+        for wrap in (None, 'implicit', 'explicit'):
+            if container is univ.Set and wrap is None:
+                continue
+
+            def anyf(n):
+                a = univ.Any()
+                if wrap == 'implicit':
+                    a = a.subtype(implicitTag=ptag.Tag(ptag.tagClassContext, ptag.tagFormatSimple, n))
+                elif wrap == 'explicit':
+                    a = a.subtype(explicitTag=ptag.Tag(ptag.tagClassContext, ptag.tagFormatConstructed, n))
+                return a
+            inner_map = {1: univ.Integer()}
+            inner_t = container(componentType=namedtype.NamedTypes(
+                namedtype.NamedType('kind', univ.Integer()),
+                namedtype.NamedType('data', anyf(1), openType=opentype.OpenType('kind', inner_map))))
+            outer_t = container(componentType=namedtype.NamedTypes(
+                namedtype.NamedType('id', univ.Integer()),
+                namedtype.NamedType('value', anyf(2), openType=opentype.OpenType('id', {3: inner_t}))))
+            plans = [('inner-kind-only-in-caller-map', 7, char.UTF8String('hi'), {7: char.UTF8String()}),
+                     ('caller-map-overrides-inner-default', 1, univ.Boolean(True), {1: univ.Boolean()}),
+                     ('inner-default-without-caller-entry', 1, univ.Integer(5), {9: univ.Null()}),
+                     ('no-caller-map', 1, univ.Integer(6), None)]
+            for cdc, dm in MODES:
+                for pname, kind, payload, caller in plans:
+                    rep.evaluations += 1
+                    rep.count('nested-caller-map')
+                    case = {'kind': 'nested-caller-map', 'container': container.__name__, 'any': wrap or 'untagged', 'codec': cdc,
+                            'defMode': dm, 'plan': pname}
+                    try:
+                        inner = inner_t.clone()
+                        inner['kind'] = kind
+                        inner['data'] = inner_t.componentType[1].asn1Object.clone(enc(cdc, payload, dm))
+                        outer = outer_t.clone()
+                        outer['id'] = 3
+                        outer['value'] = outer_t.componentType[1].asn1Object.clone(enc(cdc, inner, dm))
+                        data = enc(cdc, outer, dm)
+                        kw = {'openTypes': caller} if caller is not None else {}
+                        res, rest = codec.DEC[cdc].decode(data, asn1Spec=outer_t, decodeOpenTypes=True, **kw)
+                        got = res['value']['data']
+                    except Exception as e:  # noqa
+                        rep.fail('nested-caller-map:%s:%s' % (pname, codec.classify(e)), '%s: %r' % (pname, e), case)
+                        continue
+                    if rest or type(got) is not type(payload) or not got.isValue or got != payload:
+                        rep.fail('nested-caller-map:%s' % pname, '%s: the inner open type field came back as %s, expected %s' % (
+                            pname, str(got.prettyPrint())[:80].replace('\n', ' '), payload.prettyPrint()), dict(case, bytes=data.hex()))
+
+
 def any_match(items, t, w):
     for it in items:
         try:
@@ -348,6 +400,8 @@ def run(rep, tier, seed):
     g0 = gen.Gen(rng, max_depth=1, allow_any=False)
     _DRV[0] = common.Driver()
     check_map_history(rep, rng)
+    rep.case('nested caller map', nontrivial=True)
+    check_nested_caller_map(rep)
     for i in range(n):
         container = rng.choice(['seq', 'seq', 'set'])
         id_kind = rng.choice(['int', 'oid'])
